@@ -1319,3 +1319,137 @@ class UnusedReallyUnused(CompileRun):
 
     def required_witnesses(self, tier):
         return ['reported', 'not_reported']
+
+
+# ---------------------------------------------------------------- C05: output independent of hash order and of earlier work
+class OutputIndependent(CompileRun):
+    """C05 (whole compilations): the emitted CLVM and symbol table do not depend on the order in which HashMap/HashSet
+    iterate (the process's hash seeds), on the value of the fresh-name counter left by earlier compilations, or on an
+    earlier failed compilation in the same process"""
+    name = 'output_independent'
+    prop = 'C05'
+    kernel = 'compile_text'
+    TEMPLATES_USED = {'quick': ('inline_let', 'rest_tail_let', 'constant', 'macro'),
+                      'thorough': ('inline_let', 'rest_tail_let', 'constant', 'macro', 'at_capture', 'nested_inline', 'recursion', 'let_shadow')}
+    POLICIES = ('insertion', 'reversed', 'rotated')
+    COUNTER_ADVANCE = (0, 7)
+    functions = CompileRun.functions[:7] + ['gensym::gensym / ARGNAME_CTR']
+    assumptions = ['the program text is one of the stated templates (cl21; thorough also cl23), concrete',
+                   'HashMap/HashSet iteration order is a symbolic choice among: insertion order, reversed, rotated by one (the same policy at every iteration site of one compilation); BTreeMap/BTreeSet iterate in key order',
+                   'the fresh-name counter is advanced by a symbolic choice of 0 or 7 calls of gensym before the compilation, and a compilation of an unparsable program precedes it',
+                   'the output of every explored combination must equal the native build\'s output for the same text (emitted CLVM and symbol table)']
+    outside = 'iteration orders other than the three policies; other templates; threads (see guard_restores)'
+
+    def cases(self, tier):
+        sigils = ['cl21'] if tier == 'quick' else ['cl21', 'cl23']
+        for t in self.TEMPLATES_USED[tier]:
+            for sg in sigils:
+                if sg == 'cl23' and t not in CompileRun.QUICK_23:
+                    continue
+                for pol in range(len(self.POLICIES)):        # one shard per policy and counter choice: every path is a
+                    for adv in (False, True):                # whole compilation, so the shards are what runs in parallel
+                        yield dict(t=t, sigil=sg, policy=pol, advance=adv)
+
+    def sym_inputs(self, case):
+        return dict(policy=z3.BitVec('policy', 2), advance=z3.Bool('advance'))
+
+    def conc_inputs(self, case, j):
+        return dict(policy=z3.BitVecVal(j['policy'], 2), advance=z3.BoolVal(j['advance']))
+
+    def inputs_json(self, case, inp, model):
+        return dict(policy=ev(model, inp['policy']), advance=bool(ev(model, inp['advance'])))
+
+    def source(self, case):
+        for name, src, specs in TEMPLATES + TEMPLATES_23:
+            if name == case['t']:
+                return src.replace('{S}', SIGILS[case['sigil']])
+        raise KeyError(case['t'])
+
+    def run(self, eng, case, inp):
+        src = self.source(case)
+        eng.assume(z3.ULT(inp['policy'], len(self.POLICIES)))
+        if case.get('policy') is not None:
+            eng.assume(inp['policy'] == case['policy'])
+            eng.assume(inp['advance'] == z3.BoolVal(bool(case['advance'])))
+        pol = eng.choose([(k, inp['policy'] == k) for k in range(len(self.POLICIES))])
+        adv = self.COUNTER_ADVANCE[1] if eng.branch_bool(inp['advance']) else self.COUNTER_ADVANCE[0]
+
+        def order(e, mp):
+            n = len(mp.entries)
+            idx = list(range(n))
+            if pol == 1:
+                idx.reverse()
+            elif pol == 2 and n > 1:
+                idx = idx[1:] + idx[:1]
+            return idx
+        eng.env['map_order'] = order
+        eng.env['tls'] = tls(True)
+        eng.env['exact_fmt'] = True
+        alloc = Ref(Cell(Struct('Allocator', [])))
+        name = slice_of(conc_bytes(list(b'*t*')))
+        for _ in range(adv):
+            eng.call('gensym::gensym', [Vec(conc_bytes(list(b'x')))])
+
+        def compile_(text):
+            opts = eng.call('DefaultCompilerOpts::new', [name])
+            symtab = Cell(eng.call('HashMap::<String, String>::new', []))
+            r = eng.call('clvmc::compile_clvm_text_maybe_opt',
+                         [alloc, mkbool(False), Cell(opts, 'rc'), Ref(symtab), slice_of(conc_bytes(list(text.encode()))), name, mkbool(True)])
+            return r, symtab.v
+        bad, _ = compile_('(mod (X) (include *standard-cl-21*) (defun F (A) (+ A 1)) (F X')
+        r, symtab = compile_(src)
+        out = dict(prior_failed=bad.variant != 'Ok', ok=r.variant == 'Ok')
+        if r.variant == 'Ok':
+            out['compiled'] = tree_to_json(None, r.fields[0], ev)
+            out['symbols'] = sorted([bytes_of_items(eng.deref(k, None)).decode('latin1'), bytes_of_items(c.v.items).decode('latin1')]
+                                    for k, c in symtab.entries)
+        nat = compiled_native(src)
+        out['native'] = nat
+        return out
+
+    def obligations(self, eng, case, inp, out):
+        nat = out['native']
+        obs = [('the_preceding_compilation_failed_as_intended', z3.BoolVal(out['prior_failed']))]
+        if not out['ok']:
+            obs.append(('compiles_under_every_order_and_counter', z3.BoolVal(nat.get('compiled') is None)))
+            return obs
+        obs.append(('emitted_clvm_is_the_same_under_every_order_and_counter', z3.BoolVal(out['compiled'] == nat.get('compiled'))))
+        obs.append(('symbol_table_is_the_same_under_every_order_and_counter',
+                    z3.BoolVal([list(x) for x in out['symbols']] == [list(x) for x in (nat.get('symbols') or [])])))
+        return obs
+
+    def output_json(self, eng, case, inp, out, model):
+        return dict(compiled=out.get('compiled'), symbols=out.get('symbols'), native_compiled=out['native'].get('compiled'))
+
+    def native_inputs_pred(self, case, j, predicted):
+        return dict(source=self.source(case), optimize=False, repeat=40)
+
+    def native_inputs(self, case, j):
+        return self.native_inputs_pred(case, j, None)
+
+    def native_matches(self, case, j, native, predicted):
+        return True
+
+    def is_violation(self, case, j, native):
+        # natively the hash order cannot be chosen, only re-drawn: the build is repeated (every HashMap gets fresh keys)
+        # and a difference between repetitions confirms the dependence; without that there is no verdict
+        return native.get('repeat_differs') is True
+
+    def oracle(self, case, j):
+        return 'the native build\'s output for the same text'
+
+    def witness_classes(self, case, inp, out):
+        return [('compiled', z3.BoolVal(out['ok']))]
+
+    def required_witnesses(self, tier):
+        return ['compiled']
+
+
+_NATIVE_COMPILED = {}
+
+
+def compiled_native(source):
+    from mirsym import driver
+    if source not in _NATIVE_COMPILED:
+        _NATIVE_COMPILED[source] = driver.NATIVE.run('compile_text', [dict(case={}, inputs=dict(source=source, optimize=False))])[0]
+    return _NATIVE_COMPILED[source]
